@@ -168,11 +168,27 @@ def check_layer_ab(pid, tier, seed, rep):
                 rep.violation("run-%s" % r["name"], dict(package_dir=os.path.join(N["srcdir"], r["dir"]), meta=r["meta"], vet=r["vet"], generated=r.get("band"),
                                                          how="cd <package_dir> && kessoku <targets> && go vet ."),
                               "%s: the injector does not have the signature the declaration determines, a declared supplier is not used: %s" % (r["name"], r["vet"].strip()[-250:]))
+            if r["expect"] and r["meta"].get("run_signature") and r["gen_rc"] == 0 and r["vet_rc"] == 0 and r.get("run_rc"):
+                # a recorded finding that shows at run time
+                if r["expect"] in open_ids and re.search(r["meta"]["run_signature"], r.get("run_err", "")):
+                    rep.known_finding(r["expect"], "reproducer %s: %s" % (r["name"], re.search(r["meta"]["run_signature"], r["run_err"]).group(0)[:120]))
+                else:
+                    rep.violation("run-%s" % r["name"], dict(package_dir=os.path.join(N["srcdir"], r["dir"]), meta=r["meta"], output=r.get("run_err"), generated=r.get("band")),
+                                  "%s: fails at run time outside its recorded signature: %s" % (r["name"], r.get("run_err", "")[-200:]))
             if not r["expect"] and r["gen_rc"] == 0 and r["vet_rc"] == 0 and r.get("run_rc"):
                 viol.append(dict(pkg=r["name"], inj="<main>", detail="the injector's value differs from the sequential value the program expects: " + r.get("run_err", "")[-300:], scenario=None))
                 rep.violation("run-%s" % r["name"], dict(package_dir=os.path.join(N["srcdir"], r["dir"]), meta=r["meta"], output=r.get("run_err"), generated=r.get("band"),
                                                          how="cd <package_dir> && kessoku <targets> && go run <package>"),
                               "%s: the generated injector returns a wrong value (%s)" % (r["name"], r.get("run_err", "").strip().splitlines()[-1][-200:] if r.get("run_err", "").strip() else "non-zero exit"))
+    if pid != "C02":
+        # hand-written programs of the naming stream that belong to this property too (meta "also")
+        import stage_n
+        N = stage_n.stage(seed, tier)
+        for r in N["records"]:
+            if pid in r["meta"].get("also", []) and not r["expect"] and r["gen_rc"] == 0 and r["vet_rc"] == 0 and r.get("run_rc"):
+                rep.violation("run-%s" % r["name"], dict(package_dir=os.path.join(N["srcdir"], r["dir"]), meta=r["meta"], output=r.get("run_err"), generated=r.get("band"),
+                                                         how="cd <package_dir> && kessoku <targets> && go run ."),
+                              "%s (%s): the generated injector does not return in a fault-free run: %s" % (r["name"], r["meta"]["kind"], (r.get("run_err", "").strip().splitlines() or ["non-zero exit"])[0][-200:]))
     # model-level search on the observed programs (verified checker + greedy explorer of coq/Check.v)
     expl = {"C01": 1, "C03": 2}.get(pid)
     nmodel = 0
